@@ -6,16 +6,22 @@ package telnet
 // Comment-only file: it adds nothing to any build.
 //
 // The line editor (terminal.go, a copy of the x/crypto terminal) is not verified: its methods are
-// trusted to send no event. treads counts the lines the handler obtains from it (a ghost counter kept
-// by the verifier at the calls of ReadLine / ReadPassword).
+// trusted to send no event. treads counts the lines the handler obtains from it (a ghost counter of the
+// successful calls of ReadLine / ReadPassword, stated by their trusted contracts).
 //@ ghost var treads int
 //@ func (*Terminal).ReadLine
 //@   trusted
-//@   ensures nsends == old(nsends) && treads == old(treads)
+//@   physical 0 <= treads && treads < 1<<48
+//@   ensures nsends == old(nsends)
+//@   ensures err == nil ==> treads == old(treads) + 1
+//@   ensures err != nil ==> treads == old(treads)
 //@   modifies *
 //@ func (*Terminal).ReadPassword
 //@   trusted
-//@   ensures nsends == old(nsends) && treads == old(treads)
+//@   physical 0 <= treads && treads < 1<<48
+//@   ensures nsends == old(nsends)
+//@   ensures err == nil ==> treads == old(treads) + 1
+//@   ensures err != nil ==> treads == old(treads)
 //@   modifies *
 //@ func (*Terminal).Write
 //@   trusted
@@ -32,13 +38,11 @@ package telnet
 //@   modifies *
 //
 // One "connect" event, one event for the login (user name and password lines), then one event for every
-// further line. Handle returns when a read fails: with r reads made (the last one failed) it has sent one
-// event if the login was not completed (r <= 2), else r-1 events (connect, login, r-3 command lines).
+// further line: with L lines obtained, Handle has sent one event if the login was not completed (L <= 1),
+// else L events (connect, login, L-2 command lines) - whichever way it returns.
 //@ func (*telnetService).Handle
-//@   callcount ReadLine: treads
-//@   callcount ReadPassword: treads
 //@   requires conn != nil
 //@   physical 0 <= nsends && nsends < 1<<48 && 0 <= treads && treads < 1<<48
-//@   ensures [one-event-per-line] (treads - old(treads) <= 2 && nsends - old(nsends) == 1) || (treads - old(treads) >= 3 && nsends - old(nsends) == treads - old(treads) - 1)
+//@   ensures [one-event-per-line] nsends - old(nsends) == ite(treads - old(treads) >= 2, treads - old(treads), 1)
 //@   modifies *
 //@   loop 1: invariant treads - old(treads) == 2 + loopiter && nsends - old(nsends) == treads - old(treads)
